@@ -164,6 +164,25 @@ pub trait Scheme: Sized + 'static {
     fn default_comm_bound() -> Option<usize> {
         None
     }
+    /// KZG-style proofs: move the blinding evaluation of proof `a` onto proof `b` (the sum of the two is
+    /// unchanged). Returns false if the scheme has no such field or `a` carries no non-zero blinding.
+    fn move_blinding(
+        _a: &mut <Self::PC as PolynomialCommitment<Self::F, Self::P>>::Proof,
+        _b: &mut <Self::PC as PolynomialCommitment<Self::F, Self::P>>::Proof,
+    ) -> bool {
+        false
+    }
+}
+
+fn move_rv<F: PrimeField>(a: &mut Option<F>, b: &mut Option<F>) -> bool {
+    match *a {
+        Some(ra) if !ra.is_zero() => {
+            *b = Some(b.unwrap_or(F::zero()) + ra);
+            *a = None;
+            true
+        }
+        _ => false,
+    }
 }
 
 // ---------------------------------------------------------------- univariate helpers
@@ -214,6 +233,22 @@ pub fn uni_poly<F: PrimeField>(shape: Shape, deg: usize, rng: &mut impl RngCore)
     }
 }
 
+/// When set (C01 only), generated evaluation points are sometimes special field elements
+/// (0, 1, -1, 2): completeness is claimed at every point, not just at random ones.
+pub static SPECIAL_POINTS: std::sync::atomic::AtomicBool = std::sync::atomic::AtomicBool::new(false);
+
+pub fn pt_fe<F: PrimeField>(rng: &mut impl RngCore) -> F {
+    if SPECIAL_POINTS.load(std::sync::atomic::Ordering::Relaxed) && rng.next_u32() % 8 == 0 {
+        return match rng.next_u32() % 4 {
+            0 => F::zero(),
+            1 => F::one(),
+            2 => -F::one(),
+            _ => F::from(2u64),
+        };
+    }
+    F::rand(rng)
+}
+
 fn uni_cfg(rng: &mut impl RngCore, with_bounds: bool, bounds_le_supported: bool, max_cap: usize) -> Cfg {
     let max_degree = skewed(rng, 1, max_cap);
     let supported_degree = if rng.next_u32() % 3 == 0 { max_degree } else { skewed(rng, 1, max_degree) };
@@ -232,6 +267,10 @@ fn uni_cfg(rng: &mut impl RngCore, with_bounds: bool, bounds_le_supported: bool,
                 let mut v: Vec<usize> = (0..n).map(|_| skewed(rng, 1, top.max(1))).collect();
                 if rng.next_u32() % 2 == 0 {
                     v.push(supported_degree);
+                }
+                if rng.next_u32() % 3 == 0 {
+                    // the smallest bound a constant polynomial can carry
+                    v.insert(below(rng, v.len() + 1), 0);
                 }
                 if rng.next_u32() % 3 == 0 {
                     // duplicate and leave unsorted on purpose
@@ -289,10 +328,13 @@ where
         uni_poly(shape, deg, rng)
     }
     fn gen_point(_cfg: &Cfg, rng: &mut impl RngCore) -> Self::F {
-        Self::F::rand(rng)
+        pt_fe(rng)
     }
     fn point_json(z: &Self::F) -> serde_json::Value {
         serde_json::json!(crate::ju::fe(z))
+    }
+    fn move_blinding(a: &mut <Self::PC as PolynomialCommitment<Self::F, Self::P>>::Proof, b: &mut <Self::PC as PolynomialCommitment<Self::F, Self::P>>::Proof) -> bool {
+        move_rv(&mut a.random_v, &mut b.random_v)
     }
 }
 
@@ -318,10 +360,13 @@ where
         uni_poly(shape, deg, rng)
     }
     fn gen_point(_cfg: &Cfg, rng: &mut impl RngCore) -> Self::F {
-        Self::F::rand(rng)
+        pt_fe(rng)
     }
     fn point_json(z: &Self::F) -> serde_json::Value {
         serde_json::json!(crate::ju::fe(z))
+    }
+    fn move_blinding(a: &mut <Self::PC as PolynomialCommitment<Self::F, Self::P>>::Proof, b: &mut <Self::PC as PolynomialCommitment<Self::F, Self::P>>::Proof) -> bool {
+        move_rv(&mut a.random_v, &mut b.random_v)
     }
 }
 
@@ -346,7 +391,7 @@ impl Scheme for IpaS {
         uni_poly(shape, deg, rng)
     }
     fn gen_point(_cfg: &Cfg, rng: &mut impl RngCore) -> JFr {
-        JFr::rand(rng)
+        pt_fe(rng)
     }
     fn point_json(z: &JFr) -> serde_json::Value {
         serde_json::json!(crate::ju::fe(z))
@@ -478,10 +523,13 @@ where
         mv_poly(cfg.num_vars.unwrap(), shape, deg, rng)
     }
     fn gen_point(cfg: &Cfg, rng: &mut impl RngCore) -> Vec<Self::F> {
-        (0..cfg.num_vars.unwrap()).map(|_| Self::F::rand(rng)).collect()
+        (0..cfg.num_vars.unwrap()).map(|_| pt_fe(rng)).collect()
     }
     fn point_json(z: &Vec<Self::F>) -> serde_json::Value {
         serde_json::json!(crate::ju::fes(z))
+    }
+    fn move_blinding(a: &mut <Self::PC as PolynomialCommitment<Self::F, Self::P>>::Proof, b: &mut <Self::PC as PolynomialCommitment<Self::F, Self::P>>::Proof) -> bool {
+        move_rv(&mut a.random_v, &mut b.random_v)
     }
 }
 
@@ -541,7 +589,7 @@ impl Scheme for HyraxS {
         ml_poly(cfg.num_vars.unwrap(), shape, rng)
     }
     fn gen_point(cfg: &Cfg, rng: &mut impl RngCore) -> Vec<JFr> {
-        (0..cfg.num_vars.unwrap()).map(|_| JFr::rand(rng)).collect()
+        (0..cfg.num_vars.unwrap()).map(|_| pt_fe(rng)).collect()
     }
     fn other_point(cfg: &Cfg, z: &Vec<JFr>, rng: &mut impl RngCore) -> Vec<JFr> {
         if z.is_empty() {
@@ -645,8 +693,11 @@ impl Scheme for UniLigeroS {
     const HIDING: bool = false;
     fn gen_cfg(rng: &mut impl RngCore, thorough: bool) -> Cfg {
         let cap = if thorough { 600 } else { 200 };
-        let d = match rng.next_u32() % 3 {
+        let d = match rng.next_u32() % 4 {
             0 => skewed(rng, 1, 64),
+            // around the size (380 coefficients at the default parameters) where the coefficient matrix grows
+            // from two to four rows: polynomials of one opening then have matrices of different heights
+            1 => range(rng, 340, 800),
             _ => range(rng, 1, cap),
         };
         Cfg { max_degree: d, num_vars: None, supported_degree: d, supported_hiding: 0, enforced: None }
@@ -655,7 +706,7 @@ impl Scheme for UniLigeroS {
         uni_poly(shape, deg, rng)
     }
     fn gen_point(_cfg: &Cfg, rng: &mut impl RngCore) -> LFr {
-        LFr::rand(rng)
+        pt_fe(rng)
     }
     fn point_json(z: &LFr) -> serde_json::Value {
         serde_json::json!(crate::ju::fe(z))
@@ -679,7 +730,7 @@ impl Scheme for MlLigeroS {
         ml_poly(cfg.num_vars.unwrap(), shape, rng)
     }
     fn gen_point(cfg: &Cfg, rng: &mut impl RngCore) -> Vec<LFr> {
-        (0..cfg.num_vars.unwrap()).map(|_| LFr::rand(rng)).collect()
+        (0..cfg.num_vars.unwrap()).map(|_| pt_fe(rng)).collect()
     }
     fn point_json(z: &Vec<LFr>) -> serde_json::Value {
         serde_json::json!(crate::ju::fes(z))
@@ -707,7 +758,7 @@ impl Scheme for BrakedownS {
         ml_poly(cfg.num_vars.unwrap(), shape, rng)
     }
     fn gen_point(cfg: &Cfg, rng: &mut impl RngCore) -> Vec<LFr> {
-        (0..cfg.num_vars.unwrap()).map(|_| LFr::rand(rng)).collect()
+        (0..cfg.num_vars.unwrap()).map(|_| pt_fe(rng)).collect()
     }
     fn point_json(z: &Vec<LFr>) -> serde_json::Value {
         serde_json::json!(crate::ju::fes(z))
